@@ -150,3 +150,27 @@ Proof.
 Qed.
 Lemma cov_guard s : (cv_n s < 2)%Z -> cov_cmp s = CovErr "ValueError".
 Proof. intros H. unfold cov_cmp. apply Z.ltb_lt in H. rewrite H. reflexivity. Qed.
+
+(* C01 for Covariance: merging a shard into another = the single instance that saw both streams;
+   empty (fresh) shards are ignored by _update *)
+Lemma cov_step_fresh_r s : cov_step s cov_init = s. Proof. reflexivity. Qed.
+Theorem cov_merge_shards d a al b bl :
+  Forall (fun b => rows_ok d b = true /\ b <> []) (a :: al) -> Forall (fun b => rows_ok d b = true /\ b <> []) (b :: bl) ->
+  mrg cov_metric d (fold_left (upd cov_metric d) (a :: al) (init cov_metric d))
+      [init cov_metric d; fold_left (upd cov_metric d) (b :: bl) (init cov_metric d); init cov_metric d]
+  = fold_left (upd cov_metric d) ((a :: al) ++ (b :: bl)) (init cov_metric d).
+Proof.
+  intros Ha Hb. change ((a :: al) ++ b :: bl) with (a :: (al ++ b :: bl)).
+  rewrite (cov_stream d a al Ha), (cov_stream d b bl Hb), (cov_stream d a (al ++ b :: bl)).
+  2:{ inversion Ha; subst. constructor; [assumption|]. apply Forall_app. split; assumption. }
+  change (mrg cov_metric d ?s ?ms) with (fold_left cov_step ms s). cbn [fold_left].
+  change (init cov_metric d) with cov_init. rewrite !cov_step_fresh_r.
+  assert (Hc : forall l, Forall (fun b => rows_ok d b = true /\ b <> []) l -> rows_ok d (List.concat l) = true).
+  { induction 1 as [|x l [Hx _] _ IH]; [reflexivity|]. cbn [List.concat]. apply rows_ok_app; assumption. }
+  rewrite cov_step_concat.
+  - change (a :: al ++ b :: bl) with ((a :: al) ++ (b :: bl)). rewrite concat_app. reflexivity.
+  - apply Hc. exact Ha.
+  - apply Hc. exact Hb.
+  - inversion Ha as [|? ? [_ Hn] _]; subst. cbn [List.concat]. destruct a; [congruence|discriminate].
+  - inversion Hb as [|? ? [_ Hn] _]; subst. cbn [List.concat]. destruct b; [congruence|discriminate].
+Qed.
